@@ -72,6 +72,9 @@ fn main() {
     let scenario = args.pos.first().cloned().unwrap_or_default();
     let shard = Shard::from_args(args);
     simnet::set_alloc_probe(probe);
+    if !shard.out.is_empty() && shard.out != "-" && !shard.args.has("child") {
+        simnet::hang::install(&scenario.to_uppercase(), &shard.out);
+    }
     let rep = match scenario.as_str() {
         "c01" => delivery::run(&shard, "C01", delivery::Mode::Reliable),
         "c02" => delivery::run(&shard, "C02", delivery::Mode::BestEffort),
